@@ -13,10 +13,11 @@ Definition DAYMS : Z := 86400000.
 (* calendar day of an instant in a zone [off] milliseconds east of UTC (QDate::currentDate(),
    QDateTime::date() and QFileInfo::lastModified().date() are LOCAL dates) *)
 Definition day_at (off : Z) (t : time) : day := (t + off) / DAYMS.
-(* the model's clock saturates at 9999-12-31T23:59:59.999: beyond it QDate::toString("yyyy") has
-   five digits and the sink's own name patterns (\d{4}) no longer recognise its files *)
-Definition MAXDAY : Z := 2932896.
-Definition TMAX : time := (MAXDAY + 1) * DAYMS - 1.
+(* the model's clock saturates at 9999-12-30T23:59:59.999 UTC, so that the LOCAL date (zone offset
+   within +-24 h) stays within year 9999: beyond it QDate::toString("yyyy") has five digits and the
+   sink's own name patterns (\d{4}) no longer recognise its files *)
+Definition MAXDAY : Z := 2932896.                  (* 9999-12-31 *)
+Definition TMAX : time := MAXDAY * DAYMS - 1.
 Definition clamp (t : time) : time := Z.max 0 (Z.min t TMAX).
 (* file-system timestamp granularity: every content-changing step stamps [stamp g now] *)
 Inductive gran := G1ms | G1s | G2s.
@@ -83,16 +84,14 @@ Fixpoint take_digits (k : nat) (l : str) : option (str * str) :=
 Definition digits_val (ds : str) : Z := fold_left (fun a c => a * 10 + (Z.of_N c - 48)) ds 0.
 (* QString::toInt(): 0 when the value does not fit a 32-bit int *)
 Definition to_int (ds : str) : Z := let v := digits_val ds in if v <=? 2147483647 then v else 0.
-Fixpoint uint_codes (u : Decimal.uint) : str :=
-  match u with
-  | Decimal.Nil => []
-  | Decimal.D0 r => 48%N :: uint_codes r | Decimal.D1 r => 49%N :: uint_codes r
-  | Decimal.D2 r => 50%N :: uint_codes r | Decimal.D3 r => 51%N :: uint_codes r
-  | Decimal.D4 r => 52%N :: uint_codes r | Decimal.D5 r => 53%N :: uint_codes r
-  | Decimal.D6 r => 54%N :: uint_codes r | Decimal.D7 r => 55%N :: uint_codes r
-  | Decimal.D8 r => 56%N :: uint_codes r | Decimal.D9 r => 57%N :: uint_codes r
+(* decimal digits of a non-negative number, least significant first; [fuel] bounds the digit count *)
+Fixpoint dec_rev (fuel : nat) (n : Z) : str :=
+  match fuel with
+  | O => []
+  | S f => if n <? 10 then [Z.to_N (48 + n)] else Z.to_N (48 + n mod 10) :: dec_rev f (n / 10)
   end.
-Definition dec (n : Z) : str := uint_codes (N.to_uint (Z.to_N n)).
+(* QString::number / arg(int): no sign, no leading zeros ("0" for 0) *)
+Definition dec (n : Z) : str := let m := Z.max 0 n in rev (dec_rev (S (Z.to_nat (Z.log2 m))) m).
 Definition pad (k : nat) (ds : str) : str := repeat 48%N (k - length ds) ++ ds.
 Definition DOT : str := [46%N].
 Definition DASH : str := [45%N].
@@ -116,12 +115,16 @@ Record shape := {
   s_anchored : bool;          (* both name patterns are ^...\z (anchored at the very end: `$` would also accept a final line feed) *)
   s_escaped : bool;           (* base name, date and suffix go through QRegularExpression::escape *)
   s_gz_optional : bool;       (* both patterns end in (\.gz)? *)
-  s_append : bool             (* FileSink and rotate() open with QIODevice::Append *)
+  s_append : bool;            (* FileSink and rotate() open with QIODevice::Append *)
+  s_lists_hidden : bool;      (* both directory scans pass QDir::Files | QDir::Hidden (a log file named .app.log has hidden rotated files) *)
+  s_name_onepass : bool       (* generateRotatedFileName substitutes base, date, index, suffix in ONE arg() call
+                                 (chained .arg() calls would re-substitute a place marker such as %3 inside the base name) *)
 }.
 Definition std_shape : shape := {|
   s_victim := VKName; s_keep_off := 1; s_size_strict := true; s_size_nonempty := true; s_newline := 1;
   s_one_disables := true; s_le0_keeps := true; s_index_max1 := true; s_name_by_cur := true;
-  s_anchored := true; s_escaped := true; s_gz_optional := true; s_append := true |}.
+  s_anchored := true; s_escaped := true; s_gz_optional := true; s_append := true;
+  s_lists_hidden := true; s_name_onepass := true |}.
 Definition vkey_eqb (a b : vkey) : bool :=
   match a, b with VKName, VKName => true | VKMtime, VKMtime => true | _, _ => false end.
 Definition shape_eqb (a b : shape) : bool :=
@@ -130,7 +133,8 @@ Definition shape_eqb (a b : shape) : bool :=
   && eqb (s_one_disables a) (s_one_disables b) && eqb (s_le0_keeps a) (s_le0_keeps b)
   && eqb (s_index_max1 a) (s_index_max1 b) && eqb (s_name_by_cur a) (s_name_by_cur b)
   && eqb (s_anchored a) (s_anchored b) && eqb (s_escaped a) (s_escaped b)
-  && eqb (s_gz_optional a) (s_gz_optional b) && eqb (s_append a) (s_append b).
+  && eqb (s_gz_optional a) (s_gz_optional b) && eqb (s_append a) (s_append b)
+  && eqb (s_lists_hidden a) (s_lists_hidden b) && eqb (s_name_onepass a) (s_name_onepass b).
 
 (* ------------------------------------------------------------------ directory *)
 (* a record: the bytes written (payload ++ "\n") and, as ghost data, its global sequence number and
@@ -400,9 +404,9 @@ Fixpoint chain_b (lt : rfile -> rfile -> bool) (l : list rfile) : bool :=
 Definition first_id (f : rfile) : Z := match fcont f with r :: _ => Z.of_nat (rid r) | [] => -1 end.
 Definition prop_c09_b (s : snap) : bool :=
   let files := s_gone s ++ isort (s_rot s) in
-  (* names are never reused; per date the indices strictly increase in rotation order
-     (= the order of the records the files hold) *)
-  chain_b idx_ltb files && chain_b (fun a b => first_id a <? first_id b) files
+  (* the active file's content only ever moves to a name of the scheme; names are never reused; per
+     date the indices strictly increase in rotation order (= the order of the records the files hold) *)
+  negb (s_act_lost s) && chain_b idx_ltb files && chain_b (fun a b => first_id a <? first_id b) files
   && (if daily c && negb (cN c =? 1) then
         match s_act s with [] => true | r :: _ => one_day_b (rday r) (s_act s) end
         && forallb (fun f => fseeded f || named_day_b f) files
